@@ -429,7 +429,82 @@ def rule_f(ctx: Ctx) -> None:
     ctx.min_instances("locked_hooks", n_hooks, 2)
 
 
-RULES = [_all, rule_f]
+GLOBAL_SETTERS = {
+    "sys.setrecursionlimit", "sys.setswitchinterval", "sys.settrace", "sys.setprofile", "threading.settrace", "threading.setprofile",
+    "os.chdir", "os.putenv", "os.unsetenv", "locale.setlocale", "random.seed", "signal.signal", "gc.disable", "gc.enable", "gc.freeze",
+    "warnings.simplefilter", "warnings.filterwarnings", "decimal.setcontext",
+}
+
+
+def _global_setter_calls(tree: ast.AST) -> list[tuple[ast.AST, str]]:
+    out = []
+    for x in ast.walk(tree):
+        if isinstance(x, ast.Call) and (call_name(x) or "") in GLOBAL_SETTERS:
+            out.append((x, call_name(x)))
+        if isinstance(x, ast.Subscript) and isinstance(x.ctx, (ast.Store, ast.Del)) and norm(x.value) == "os.environ":
+            out.append((x, "os.environ[...] ="))
+    return out
+
+
+def rule_g(ctx: Ctx) -> None:
+    ctx.rule("C19.g", "no interpreter-wide switch is flipped while working: library code never calls a process-global setter (sys.setrecursionlimit, sys.settrace, "
+                      "os.environ stores, locale.setlocale, signal.signal, ...) — a save / set / restore around a call is visible to, and undone under, every other thread")
+    probe = ast.parse("import sys\ndef f():\n    old = sys.getrecursionlimit()\n    sys.setrecursionlimit(10000)\n    try:\n        pass\n    finally:\n        sys.setrecursionlimit(old)\n")
+    ctx.require(len(_global_setter_calls(probe)) == 2, "internal: C19.g matcher no longer recognises its positive control")
+    n = 0
+    for m in ctx.repo.modules.values():
+        if m.name in ("sqlglot.__main__",):
+            continue
+        n += 1
+        for node, what in _global_setter_calls(m.tree):
+            f = m.enclosing_func(node)
+            where = f.key if f else f"{m.name}:<module>"
+            ctx.fail(m, node, where, node, f"{what} changes state of the whole interpreter: concurrent calls see each other's setting, and the first to finish restores the old value "
+                                           f"while the others still rely on the new one")
+    ctx.ok("package|no process-global setter is called", {"modules_scanned": n})
+    ctx.count("modules_scanned_for_global_setters", n)
+    ctx.min_instances("modules_scanned_for_global_setters", n, 150)
+
+
+def rule_h(ctx: Ctx) -> None:
+    ctx.rule("C19.h", "memoised factories hand out no workers: a function decorated with lru_cache / cache never returns a tokenizer, parser or generator instance "
+                      "(Dialect.tokenizer()/parser()/generator(), or a class with per-call state): the cached object would be shared by every caller and thread")
+    repo = ctx.repo
+    worker_suffix = ("Tokenizer", "Parser", "Generator", "TokenizerCore", "TypeAnnotator", "MappingSchema")
+
+    def memoised(fn: ast.AST) -> bool:
+        return any(("lru_cache" in norm(d) or norm(d) in ("cache", "functools.cache")) for d in getattr(fn, "decorator_list", []))
+
+    def returned_worker(fn: ast.AST):
+        bad_ = None
+        for r in walk_no_nested(fn):
+            if not (isinstance(r, ast.Return) and r.value is not None):
+                continue
+            for c in ast.walk(r.value):
+                if isinstance(c, ast.Call):
+                    cn = call_name(c) or ""
+                    last = cn.split(".")[-1] if cn else (c.func.attr if isinstance(c.func, ast.Attribute) else "")
+                    if last in ("tokenizer", "parser", "generator", "jsonpath_tokenizer") or last.endswith(worker_suffix):
+                        bad_ = (c, last)
+        return bad_
+
+    probe = ast.parse("from functools import lru_cache\n@lru_cache(maxsize=None)\ndef engines():\n    return Hive().tokenizer(), _TrinoTokenizer(Trino())\n").body[1]
+    ctx.require(memoised(probe) and returned_worker(probe) is not None, "internal: C19.h matcher no longer recognises its positive control")
+    n = 0
+    for f in repo.all_funcs():
+        if not memoised(f.node):
+            continue
+        n += 1
+        bad = returned_worker(f.node)
+        if bad:
+            ctx.fail(f.module, bad[0], f.key, bad[0], f"{f.name} is memoised and returns a worker ({norm(bad[0], 40)}): every caller, in every thread, drives the same stateful object")
+        else:
+            ctx.ok(f"{f.key}|memoised, returns no worker", None)
+    ctx.ok("package|memoised factories scanned", {"memoised_functions": n})
+    ctx.count("memoised_functions", n)
+
+
+RULES = [_all, rule_f, rule_g, rule_h]
 EXPLANATION = (
     "Static race discipline over the complete inventory of process-wide mutable state (module globals, class "
     "attributes, globals()) found by a whole-package write scan: lock coverage of the lazy-import hooks, "
